@@ -450,6 +450,16 @@ def check_atomic_write(ctx: Ctx, oid: str) -> None:
                     mode = f"all socket sends inside the lock region {lock}"
                     if callee_attr(prim[0]) == "send":
                         mode = None  # sock.send may write partially
+                    # one frame = one lock region: a lock taken per slice inside a loop lets another thread's frame in between two slices
+                    for c_ in prim:
+                        seen_with = False
+                        for anc in repo.ancestors(c_):
+                            if anc is fi.node:
+                                break
+                            if isinstance(anc, ast.With) and any(lock.split(".")[-1] in unparse(it.context_expr) for it in anc.items):
+                                seen_with = True
+                            elif isinstance(anc, (ast.For, ast.While)) and seen_with:
+                                mode = None
             ob.site(fi, prim[0] if prim else fi.node, f"{cname}.write atomic w.r.t. concurrent senders", mode=mode)
             if mode is None:
                 ob.violation(fi, prim[0] if prim else fi.node,
